@@ -1284,7 +1284,11 @@ class AstEval:
                                 return val
                     finally:
                         if handler.name is not None:
-                            del self.sym_table[handler.name]
+                            # the name is unbound at the end of the clause; a closure's variable stays shared
+                            if isinstance(self.sym_table.get(handler.name), EvalLocalVar):
+                                self.sym_table[handler.name].set_undefined()
+                            else:
+                                self.sym_table.pop(handler.name, None)
                     break
             else:
                 raise err
